@@ -127,6 +127,7 @@ Lemma lut2_get_spec c ch : c < 4 -> ch < 4096 ->
 Proof.
   intros Hc Hch. unfold lut2_get.
   destruct (N.ltb_spec (c * 4096 + ch) lut2_len) as [_ | Hge]; [| unfold lut2_len in Hge; lia].
+  destruct (N.ltb_spec (c * 4096 + ch) lut2_built) as [_ | Hge]; [| unfold lut2_built in Hge; lia].
   unfold lut2_entry. change lut2_chunk_bits with 12. change lut2_order with 6%nat.
   rewrite land_fff, N.shiftr_div_pow2. change (2 ^ 12) with 4096.
   replace ((c * 4096 + ch) mod 4096) with ch
